@@ -6,7 +6,7 @@ C02_CLAUSES = ["I_Balanced"]
 
 
 def execute(run, plans):
-    return split_segments(run_driver(run, "avl", [c for p in plans for c in p], timeout=3000))
+    return run_plans(run, "avl", plans)
 
 
 def bounds(run):
@@ -198,7 +198,10 @@ def run_all(run, prop, clauses):
     segs = execute(run, plans)
     if len(segs) != len(plans):
         raise Inconclusive("driver returned %d segments for %d plans" % (len(segs), len(plans)))
-    conf = conformance(plans[:nt], segs[:nt], ["ret", "xpre", "xpre2"])
+    crashed = [i for i, sg in enumerate(segs) if sg is None]
+    conf = conformance([p for p, sg in zip(plans[:nt], segs[:nt]) if sg is not None], [sg for sg in segs[:nt] if sg is not None], ["ret", "xpre", "xpre2"])
+    plans = [p for p, sg in zip(plans, segs) if sg is not None]
+    segs = [sg for sg in segs if sg is not None]
     validate(run, "avl", "AVLAbsTrace", dict(Prop='"%s"' % prop), segs, clauses, plans=plans)
     run.cov.update(tour=tours, conformance=conf, generated_histories=len(plans) - nt,
                    exhaustive=all(t["edges_covered"] == t["edges_total"] for t in tours),
@@ -217,6 +220,6 @@ def run_all(run, prop, clauses):
 
 
 def replay_one(run, rp, prop, clauses):
-    segs = execute(run, [rp["plan"]])
-    validate(run, "avl", "AVLAbsTrace", dict(Prop='"%s"' % prop), segs, clauses, plans=[rp["plan"]])
+    segs = [sg for sg in execute(run, [rp["plan"]]) if sg is not None]
+    validate(run, "avl", "AVLAbsTrace", dict(Prop='"%s"' % prop), segs, clauses, plans=[rp["plan"]] * len(segs))
     return finish(run, reexec=lambda rej: execute(run, [rej["plan"]])[0])
